@@ -30,6 +30,17 @@ COMPONENTS = {
 }
 
 
+def shorten(o, n=120):
+    """long strings are abbreviated in evidence samples (replay files keep them)"""
+    if isinstance(o, str) and len(o) > n:
+        return o[:40] + "...<%d chars>" % len(o)
+    if isinstance(o, dict):
+        return {k: shorten(v, n) for k, v in o.items()}
+    if isinstance(o, (list, tuple)):
+        return [shorten(v, n) for v in o]
+    return o
+
+
 def steps_hash(steps, extra=None):
     return hashlib.sha256(json.dumps([steps, extra], sort_keys=True, default=repr).encode()).hexdigest()[:16]
 
@@ -297,7 +308,7 @@ def check_property(engine, tier, base_seed, n_runs, jobs, budget_s=None, write_e
         for r in results:
             if r.get("spec") is not None and len(samples) < 3:
                 samples.append({"seed": r["seed"], "nontrivial": bool(r.get("nontrivial")),
-                                "cfg": r["spec"].get("cfg"), "steps": r["spec"].get("steps", [])[:60],
+                                "cfg": r["spec"].get("cfg"), "steps": shorten(r["spec"].get("steps", r["spec"].get("input", []))[:60]),
                                 "outcome": "violation" if r["viol"] else "held"})
         faults = {k[len("fault_"):]: v for k, v in agg["counters"].items() if k.startswith("fault_")}
         if agg["counters"].get("rng_collisions_forced"):
